@@ -363,7 +363,13 @@ func c08One(c *ctx, inp *bgzfInput, d *Driver, impl *[]string) {
 		r.fail("c08.haseof.disagrees", fmt.Sprintf("HasEOF=%v but the last 28 bytes equal the marker: %v", has, marked), in)
 		return
 	}
-	if wr.closeErr == nil && !marked {
+	if !wr.closed {
+		// never closed: no marker, HasEOF false (theorem open_stream)
+		if marked || has {
+			r.fail("c08.eof.unclosed-marked", fmt.Sprintf("the writer was never closed but the output ends with the EOF marker (HasEOF=%v)", has), in)
+			return
+		}
+	} else if wr.closeErr == nil && !marked {
 		r.fail("c08.eof.missing", "Close returned nil but the output does not end with the EOF marker", in)
 		return
 	}
@@ -409,7 +415,13 @@ func c08One(c *ctx, inp *bgzfInput, d *Driver, impl *[]string) {
 			r.disagree("C08.codec-law.bound", fmt.Sprintf("payload %d level %d", len(m.Payload), in.Level), fmt.Sprint(m.DeflateLen), fmt.Sprint(deflateBound(len(m.Payload))))
 		}
 	}
-	if expect == "ok" && !bytes.Equal(flat, want) {
+	if !wr.closed {
+		// at rest the delivered members decode to the accepted data minus what the active block still holds
+		if !bytes.HasPrefix(want, flat) || len(flat)+wr.lastNext != len(want) {
+			r.fail("c08.open.data", fmt.Sprintf("unclosed writer at rest: members decode to %d bytes, Next()=%d, %d bytes were accepted", len(flat), wr.lastNext, len(want)), in)
+			return
+		}
+	} else if expect == "ok" && !bytes.Equal(flat, want) {
 		r.fail("c08.output.data", fmt.Sprintf("members decode to %d bytes, %d were written; first difference at %d", len(flat), len(want), firstDiff(flat, want)), in)
 		return
 	}
@@ -443,6 +455,11 @@ func c08One(c *ctx, inp *bgzfInput, d *Driver, impl *[]string) {
 	if d == nil {
 		return
 	}
+	// the reader half of C01's round trip on every header class (incl. strings >= 512 bytes, which gzip.Reader and
+	// the model both refuse): Member.readStream = the library reader on the produced bytes
+	if len(out) > 0 && (len(out)+len(flat) <= 24000 || c.rnd.coin(1, 10)) {
+		readStreamTie(c, "c08", in, out, ms, 1+c.rnd.intn(3), d, impl)
+	}
 	hargs := h.drvArgs()
 	xfl := xflOf(in.Level)
 	var pairs []string
@@ -470,22 +487,76 @@ func c08One(c *ctx, inp *bgzfInput, d *Driver, impl *[]string) {
 			plens = append(plens, len(m.Payload))
 		}
 		d.add("c01.write %s", strings.Join(in.Ops, ","))
-		*impl = append(*impl, fmt.Sprintf("%s|%s|0", strings.Join(wr.results, ","), intsJoin(plens)))
+		*impl = append(*impl, fmt.Sprintf("%s|%s|%d", strings.Join(wr.results, ","), intsJoin(plens), wr.lastNext))
+		// the script abstraction of the writer LTS (WriterCompose.absScript in Model/WriterAbs.lean, what the byte-determinism theorems compose
+		// with) against (i) the Go re-implementation `wSim` the C12/C09 harness builds its abstract scripts with,
+		// (ii) the implementation itself: Writer.Next() != 0 before every Flush, and the number of data members written
+		{
+			sim := &wSim{}
+			var abs []string
+			flags := ""
+			closedSeen := false
+			for i, k := range kinds {
+				switch k {
+				case 'w':
+					if closedSeen {
+						abs = append(abs, "w0")
+					} else {
+						abs = append(abs, fmt.Sprintf("w%d", sim.write(lens[i])))
+					}
+				case 'f':
+					f := !closedSeen && sim.flush()
+					if f {
+						abs = append(abs, "f1")
+					} else {
+						abs = append(abs, "f0")
+					}
+					if wr.nexts[i] > 0 {
+						flags += "1"
+					} else {
+						flags += "0"
+					}
+				case 't':
+					abs = append(abs, "wt")
+				case 'c':
+					closedSeen = true
+					abs = append(abs, "c")
+				}
+			}
+			if flags == "" {
+				flags = "-"
+			}
+			d.add("c08.abs %s", strings.Join(in.Ops, ","))
+			*impl = append(*impl, fmt.Sprintf("%s|%s|%d", strings.Join(abs, ","), flags, len(plens)))
+		}
 	} else {
 		// the block that was refused: the single write's payload (or the empty block when it is absent)
 		d.add("c08.member %s %d %d %d %s", hargs, xfl, len(want), crc32.ChecksumIEEE(want), hexs(flateOf(in.Level, want)))
 		*impl = append(*impl, closeClass)
 		pairs = append(pairs, fmt.Sprintf("%d:%d", len(want), len(flateOf(in.Level, want))))
 	}
+	if !wr.closed {
+		d.add("c08.open %s %d %s", hargs, xfl, joinOrDash(pairs))
+		*impl = append(*impl, fmt.Sprintf("open %d %v %s", len(out), has, intsJoin(sizes)))
+		return
+	}
 	d.add("c08.close %s %d %s", hargs, xfl, strings.Join(pairs, ","))
 	*impl = append(*impl, fmt.Sprintf("%s %d %v %s", closeClass, len(out), has, intsJoin(sizes)))
+}
+
+func joinOrDash(xs []string) string {
+	if len(xs) == 0 {
+		return "-"
+	}
+	return strings.Join(xs, ",")
 }
 
 func checkC08(c *ctx) {
 	r := c.res
 	r.Rule = "write scripts as in C01 (shorter payloads) x gzip header settings: ModTime {zero, random, small, 4-byte windows over the format's magic strings, >2^32, negative}, " +
 		"OS, Name/Comment {empty, ASCII, Latin-1, dictionary, 511, 512+, invalid}, Extra {none, 1-3 well-formed sub-fields incl. a second BC, malformed, dictionary, " +
-		"and with single-write scripts: at the gzip XLEN limit, at the 64 KiB member limit, large}; level -1..9; each script under 3 values of wc (0..5). " +
+		"and with single-write scripts: at the gzip XLEN limit, at the 64 KiB member limit, large}; level -1..9; each script under 3 values of wc (0..5); " +
+		"1/8 of the multi-op scripts never close the writer (judged at rest after Wait: conformant members, no marker, HasEOF false). " +
 		"A case is non-trivial when a byte is written or a header field is set; distinct = distinct (ops, level, wc, data kind, header)."
 	// fixed facts assumed of DEFLATE/CRC-32 by the model's Codec laws
 	if fr, e := io.ReadAll(flate.NewReader(bytes.NewReader([]byte{3, 0}))); e != nil || len(fr) != 0 || crc32.ChecksumIEEE(nil) != 0 {
@@ -548,6 +619,19 @@ func checkC08(c *ctx) {
 			}
 		} else {
 			in.Ops = genWriteScript(rnd, 6, rnd.coin(1, 6))
+			if rnd.coin(1, 8) {
+				// a writer that is never closed (Flush/Wait only): everything from the first Close on is dropped
+				for j, o := range in.Ops {
+					if o == "c" {
+						in.Ops = in.Ops[:j]
+						break
+					}
+				}
+				if len(in.Ops) == 0 {
+					in.Ops = []string{"w7", "f"}
+				}
+				hclass += "+script.unclosed"
+			}
 		}
 		_, lens, total, _ := parseWOps(in.Ops)
 		for j, o := range in.Ops {
